@@ -1639,6 +1639,8 @@ int save_object (object_t * ob, const char *file, int save_zeros) {
   if (fprintf (f, "#/%s\n", ob->prog->name) < 0)
     {
       debug_perror ("Could not write save_object() header", tmp_name);
+      fclose (f);
+      unlink (tmp_name);
       free_string_svalue (sp--);
       return 0;
     }
